@@ -5,6 +5,9 @@
 //        foreign thread (F); script = outcomes for the successive send calls on that connection:
 //        a<k> accept at most k bytes, w would-block; after the script every call is passed through
 //     -> X bytes=<received> content=<1|0> calls=<send calls until everything was delivered> p=<value|R|P per write> twice=<promises settled more than once>
+//   E <busy ms> <size>                    A's write of <size> bytes is blocked; while the worker is busy for <busy ms> in another connection's
+//        handler, A sends bytes and starts reading, so its descriptor becomes readable and writable in the same poll result
+//     -> E bytes=<received> content=<1|0> p=<value|R|P>
 //   S <stall ms> <size>                   connection A asks for <size> bytes and does not read for <stall ms> after the kernel first refused bytes for it;
 //        connection B (same single worker) sends a request after a third of that time
 //     -> S b_answered=<1|0> b_latency_ok=<1|0> spin=<1 if more than 1000 send calls were made on A while stalled> a_content=<1|0> a_value=<1|0>
@@ -115,6 +118,11 @@ public:
                 std::thread(issue).detach();
             else
                 issue();
+        }
+        else if (cmd.rfind("sleep", 0) == 0)
+        {
+            // keep the worker busy so that several kinds of readiness pile up for its next poll
+            std::this_thread::sleep_for(std::chrono::milliseconds(atoi(cmd.c_str() + 5)));
         }
         else if (cmd.rfind("ping", 0) == 0)
         {
@@ -239,6 +247,37 @@ static std::string handle(const std::string& line)
                 ++twice;
         }
         os << " twice=" << twice;
+    }
+    else if (t[0] == "E")
+    {
+        // A's big write is blocked (EAGAIN, write interest armed); while the worker is busy in another
+        // connection's handler, A both sends bytes and drains: readable and writable are reported together
+        for (int k = 0; k < 4000 && !g_script.eagain_seen; ++k)
+            std::this_thread::sleep_for(std::chrono::milliseconds(5));
+        int b = pv::connect_loopback(port);
+        pv::send_all(b, "sleep" + t[1]);
+        std::this_thread::sleep_for(std::chrono::milliseconds(30));
+        pv::send_all(a, "noop");
+        std::string got;
+        pv::read_until(a, got, [&](const std::string& x) { return x.size() >= total; }, 3000);
+        for (int k = 0; k < 200; ++k)
+        {
+            {
+                std::lock_guard<std::mutex> g(g_res.m);
+                if (g_res.value[0] != -1)
+                    break;
+            }
+            std::this_thread::sleep_for(std::chrono::milliseconds(5));
+        }
+        std::lock_guard<std::mutex> g(g_res.m);
+        os << "E bytes=" << got.size() << " content=" << (got == expected ? 1 : 0) << " p=";
+        if (g_res.value[0] == -1)
+            os << "P";
+        else if (g_res.value[0] == -2)
+            os << "R";
+        else
+            os << g_res.value[0];
+        ::close(b);
     }
     else
     {
